@@ -69,6 +69,12 @@ def _built_shape(ch):
     spec = {"kind": k, "nums": [_n(ch) for _ in range(10)], "pos": [abs(_n(ch)) + 0.5 for _ in range(4)], "tr": ch.choice(TRS), "fill": ch.choice(FILLS), "stroke": ch.choice(FILLS), "sw": ch.choice([None, 1, 2.5, 0.25]), "id": ch.choice([None, None, "s%d" % ch.int(1, 99)])}
     if k == "Path":
         spec["d"] = gp.render(gp.gen_cmds(ch, ch.int(2, 6), mag=100.0, allow_zc=False, arc_zero=False), 0)
+    if ch.coin(0.08):
+        # magnitudes that leave the plain decimal spelling (below 1e-4, from 1e12): exponent forms in the written numbers
+        f = ch.choice([1e-10, 1e-20, 1e-7, 1e12])
+        spec["nums"] = [v * f for v in spec["nums"]]
+        if k in ("Polyline", "Polygon", "SimpleLine"):
+            spec["tiny"] = True
     return spec
 
 
